@@ -62,7 +62,7 @@ def gen(rng, tier):
                 shapes[rng.randrange(len(shapes))] = list(rng.choice(SHAPES))
             w = None
             if cls == "CubaLIF":
-                w = rng.choice([None, {"f": "py", "v": 2.0}, {"f": "pyint", "v": 3}, {"f": "np", "v": 0.5},
+                w = rng.choice([None, {"f": "py", "v": 2.0}, {"f": "pyint", "v": 3}, {"f": "np", "v": 0.5}, {"f": "negzero"}, {"f": "negzero", "arr": True},
                                 {"f": "arr", "shape": []}, {"f": "arr", "shape": [1]},
                                 {"f": "arr", "shape": list(base)}, {"f": "arr", "shape": list(base[-1:])},
                                 {"f": "arr", "shape": [2] + list(base)}, {"f": "arr", "shape": [1] + list(base)},
@@ -144,6 +144,8 @@ def recipe(c):
                 args["w_in"] = int(w["v"])
             elif w["f"] == "np":
                 args["w_in"] = np.float32(w["v"])
+            elif w["f"] == "negzero":
+                args["w_in"] = -0.0 if not w.get("arr") else np.array([-0.0] * (c["shapes"][0][-1] if c["shapes"][0] else 1))[:None if c["shapes"][0] else 0] if False else (np.full(c["shapes"][0][-1:], -0.0) if c["shapes"][0] else np.array(-0.0))
             elif w["f"] == "cplx":
                 args["w_in"] = np.complex128(1.5 + 0.5j)
             else:
@@ -171,6 +173,8 @@ def should_accept(c):
             return False, None
         S = shapes[0]
         w = c["w_in"]
+        if c["cls"] == "CubaLIF" and w is not None and w["f"] == "negzero" and w.get("arr") and len(S) == 0:
+            return True, S
         if c["cls"] == "CubaLIF" and w is not None and w["f"] == "arr":
             try:
                 if np.broadcast_shapes(S, tuple(w["shape"])) != S:
@@ -209,6 +213,8 @@ def run(c):
                 fail = f"{c['cls']} accepted but types are {n.input_type} / {n.output_type}, expected {list(S)}"
             elif c["cls"] == "CubaLIF" and (not isinstance(n.w_in, (np.ndarray, np.generic)) or np.shape(n.w_in) != S):
                 fail = f"CubaLIF w_in not materialised to {S}: {getattr(n.w_in, 'shape', None)!r} ({c['w_in']})"
+            elif c["cls"] == "CubaLIF" and c["w_in"] is not None and c["w_in"]["f"] == "negzero" and not np.all(np.signbit(np.asarray(n.w_in))):
+                fail = f"CubaLIF materialised the input weight -0.0 as {np.asarray(n.w_in)!r} (the sign of zero is lost)"
         elif c["kind"] == "linear":
             if tval(n.input_type, "input") == "none" or tval(n.output_type, "output") == "none":
                 fail = f"{c['cls']} accepted with undefined types"
